@@ -243,6 +243,7 @@ class Path:
         self.eng, self.unit, self.fc, self.node, self.modsrc = eng, eng.unit, fc, node, modsrc
         self.defcls, self.concrete, self.loops, self.oracle, self.pid = defcls, concrete, loops, oracle, pid
         self.pc = []
+        self.pc_ids = set()
         self.obligations = []
         self.callno = 0
         self.env = None
@@ -275,6 +276,10 @@ class Path:
                 f = f.t
             if z3.is_true(f):
                 continue
+            fid = f.get_id()
+            if fid in self.pc_ids:
+                continue
+            self.pc_ids.add(fid)
             self.pc.append(f)
 
     def feasible(self, cond):
@@ -347,6 +352,9 @@ class Path:
             self.assume(map_size(v.t) >= 0)
         elif isinstance(s, RefS):
             self.assume(v.t >= 0)
+        elif isinstance(s, OptS):
+            if isinstance(s.inner, (SeqS, MapS, TupS)):
+                self.wf(V(opt_val(v.t), s.inner))      # harmless when the value is none (the payload is then unconstrained)
         elif isinstance(s, TupS):
             for i, e in enumerate(s.elems):
                 if isinstance(e, (SeqS, MapS, RefS, TupS)):
@@ -361,7 +369,7 @@ class Path:
 
     def hread(self, env, ref, attr):
         owner, sort, ghost = self.hkey(ref.s.cls, attr)
-        t = z3.Select(env.heap[(owner, attr)], ref.t)
+        t = z3.simplify(z3.Select(env.heap[(owner, attr)], ref.t))
         v = V(t, sort)
         self.wf(v)      # every sequence / map stored in the heap is well formed (len >= 0): standing assumption
         return v
@@ -504,7 +512,17 @@ class Path:
             self.obligations.append(Obligation("%s/vacuity:normal-exit-reachable" % q, list(self.pc), None, "vacuity-exit", line, self.pid))
         for stmt in fc.ghost_exit_l:
             self.exec_ghost(stmt, result=result)
+        for wname, (wsort, bound_to) in getattr(fc, "witness_bind", {}).items():
+            if bound_to in self.env.locals:
+                self.env.locals[wname] = self.env.locals[bound_to]
         sv = self.env.spec_view(old=self.entry, result=result)
+        for e, l in fc.hints_l:
+            ghosts = {x.id for x in ast.walk(ast.parse(e.strip(), mode="eval")) if isinstance(x, ast.Name) and x.id.startswith("g_")}
+            if not ghosts <= set(sv.locals):
+                continue        # the ghost witnesses of this hint do not exist on this path (e.g. sorted() was not reached)
+            hv = self.ev_spec(e, sv)
+            self.oblige("%s/hint:%s" % (q, l), hv.t, "hint", line)
+            self.assume(hv)
         for i, (exc, when, ens, iff) in enumerate(fc.raises_l):
             if when is not None and iff:
                 w = self.ev_spec(when, self.entry)
@@ -1314,6 +1332,10 @@ class Path:
     _last_iter_lazy = None
 
     def as_iter_seq(self, v, line=0):
+        if isinstance(v.s, OptS) and isinstance(v.s.inner, (SeqS, MapS)):
+            if not self.env.spec:
+                self.guard(z3.Not(opt_is_none(v.t)), "TypeError", line)
+            v = V(opt_val(v.t), v.s.inner, v.lazy)
         if isinstance(v.s, SeqS):
             return v
         if isinstance(v.s, MapS):
@@ -1327,6 +1349,13 @@ class Path:
 
     def map_keys_seq(self, m):
         """ghost enumeration of the keys of a finite map: duplicate free, exactly the domain"""
+        cache = getattr(self, "_keyseq_cache", None)
+        if cache is None:
+            cache = self._keyseq_cache = {}
+        if m.t.get_id() in cache:         # keys() / values() / items() of the same (unmodified) dict agree on the order
+            r0, fs = cache[m.t.get_id()]
+            self.env.locals["g_kidx"] = fs
+            return r0
         so = SeqS(m.s.k)
         r = fresh("keys", so)
         j, j2 = ops.qvar("jm"), ops.qvar("jm")
@@ -1340,6 +1369,7 @@ class Path:
                                                z3.And(0 <= idx(kx), idx(kx) < seq_len(r), seq_get(r, idx(kx)) == kx)),
                               patterns=[idx(kx)]))
         self.env.locals["g_kidx"] = V(None, FunS([m.s.k], INT, name=idx.name()))
+        cache[m.t.get_id()] = (V(r, so), self.env.locals["g_kidx"])
         return V(r, so)
 
     # ------------------------------------------------------------------ generators
@@ -1652,6 +1682,8 @@ class Path:
         if isinstance(op, (ast.Eq, ast.NotEq)):
             if a.s == NONE or b.s == NONE:
                 t = ops.is_none(b if a.s == NONE else a)
+            elif (a.s == FOREIGN) != (b.s == FOREIGN):
+                t = z3.BoolVal(False)       # values of unrelated types never compare equal
             elif isinstance(a.s, RefS) and isinstance(b.s, RefS) and not env.spec and self.structural_eq_class(a.s.cls):
                 t = self.dataclass_eq(a, b, n)
             else:
@@ -1729,6 +1761,10 @@ class Path:
                 ie = idx.t
                 if z3.is_int_value(z3.simplify(ie)) and z3.simplify(ie).as_long() < 0:
                     ie = ie + ln
+                if getattr(self, "collect_bounds", None) is not None:
+                    # code evaluated under a quantified variable (comprehension element): the access must be in range
+                    ie = ite(idx.t < 0, idx.t + ln, idx.t)
+                    self.collect_bounds.append(z3.And(0 <= ie, ie < ln))
                 return V(seq_get(base.t, ie), base.s.elem)
             ie = ite(idx.t < 0, idx.t + ln, idx.t)
             self.guard(z3.And(0 <= ie, ie < ln), "IndexError", line)
@@ -1771,7 +1807,20 @@ class Path:
         ln = seq_len(base.t)
         lo = ops.clamp_index(self.ev(sl.lower, env).t, ln) if sl.lower is not None else z3.IntVal(0)
         hi = ops.clamp_index(self.ev(sl.upper, env).t, ln) if sl.upper is not None else ln
-        v, ax = ops.seq_slice(base, z3.simplify(lo), z3.simplify(hi))
+        lo, hi = z3.simplify(lo), z3.simplify(hi)
+        if env.binders or getattr(self, "under_binder", 0):
+            # under a quantified variable no definitional constant may be introduced: closed form with a lambda array
+            asort = seq_arr(base.t).sort()
+            f = z3.Function("slice_of_" + str(base.s.elem.key).replace("[", "_").replace("]", "").replace(",", "_"),
+                            asort, z3.IntSort(), asort)
+            key = "slice-axiom:" + f.name()
+            if key not in self.axioms_added:
+                self.axioms_added.add(key)
+                a_, l_, k_ = z3.Const("a!sl", asort), z3.Int("l!sl"), z3.Int("k!sl")
+                self.assume(z3.ForAll([a_, l_, k_], z3.Select(f(a_, l_), k_) == z3.Select(a_, l_ + k_),
+                                      patterns=[z3.Select(f(a_, l_), k_)]))
+            return V(seq_mk(base.s, ite(hi - lo > 0, hi - lo, z3.IntVal(0)), f(seq_arr(base.t), lo)), base.s)
+        v, ax = ops.seq_slice(base, lo, hi)
         self.assume(*ax)
         return v
 
@@ -1811,9 +1860,19 @@ class Path:
         saved = self.env
         self.bind_target(g.target, V(seq_get(S.t, j), S.s.elem), sub)
         pure_eval = PureGuard(self)
-        with pure_eval:
-            conds = [ops.truthy(self.ev(c, sub)) for c in g.ifs]
-            elt = self.ev(n.elt, sub)
+        saved_cb = getattr(self, "collect_bounds", None)
+        self.collect_bounds = [] if not env.spec else None
+        try:
+            with pure_eval:
+                conds = [ops.truthy(self.ev(c, sub)) for c in g.ifs]
+                elt = self.ev(n.elt, sub)
+            bounds = self.collect_bounds
+        finally:
+            self.collect_bounds = saved_cb
+        if bounds:
+            self.oblige("%s/bounds@L%d:subscripts-in-comprehension-in-range" % (self.fc.qualname, getattr(n, "lineno", 0)),
+                        z3.ForAll([j], z3.Implies(z3.And(0 <= j, j < seq_len(S.t), *conds), z3.And(*bounds))), "bounds",
+                        getattr(n, "lineno", 0))
         if conds:
             return self.filtered_comprehension(S, j, z3.And(*conds), elt)
         so = SeqS(elt.s)
@@ -1862,7 +1921,7 @@ class Path:
 
     from .calls import code_call, call_contract, spec_call, spec_call_pure, construct, builtin_call, seq_method, map_method, \
         call_uninterpreted, library_call, quantifier, apply_macro, defaults_of, apply_modifies, isinstance_of, quantified_gen, \
-        lambda_apply, sorted_call
+        lambda_apply, sorted_call, dict_from_pairs
 
 
 class PureGuard:
@@ -1874,6 +1933,7 @@ class PureGuard:
     def __enter__(self):
         self.saved = self.path.decide
         path = self.path
+        path.under_binder = getattr(path, "under_binder", 0) + 1
 
         def no_decide(cond):
             c = z3.simplify(cond)
@@ -1886,6 +1946,7 @@ class PureGuard:
 
     def __exit__(self, *a):
         self.path.decide = self.saved
+        self.path.under_binder -= 1
         return False
 
 
